@@ -132,6 +132,35 @@ def indirect_targets(prog, f, ins, depth=0):
             else:
                 return None
         return sorted(set(out))
+    # a field of a table of function pointers that a unit-internal helper receives by address (`ops->length(item)`): every call
+    # site of the helper passes the address of a constant aggregate; the targets are that field's initialisers
+    if isinstance(v, Inst) and v.op == "load" and f.internal and depth < 3:
+        src = strip_casts(v.operands[0])
+        off = 0
+        if isinstance(src, Inst) and src.op == "getelementptr" and src.d.get("const_offset") is not None:
+            off = src.d["const_offset"]
+            src = strip_casts(src.operands[0])
+        if isinstance(src, Arg):
+            sites = [(g, c) for g in prog.funcs.values() for c in g.calls(f.name)]
+            if not sites:
+                return None
+            out = []
+            for g, c in sites:
+                a = strip_casts(c.operands[src.i]) if src.i < len(c.operands) else None
+                if not isinstance(a, GlobalRef):
+                    return None
+                gl = prog.global_for(g, a.name) or prog.globals.get(a.name)
+                iv = gl.get("init_val") if gl and gl.get("constant") else None
+                lay = prog.structs.get((gl.get("type") or "").lstrip("%")) if gl else None
+                if iv is None or not hasattr(iv, "elems") or not lay or off not in lay.get("offsets", []) or len(iv.elems) != len(lay["offsets"]):
+                    return None
+                el = iv.elems[lay["offsets"].index(off)]
+                el = strip_casts(el) if not hasattr(el, "name") else el
+                n = getattr(el, "name", None)
+                if n is None or n not in prog.funcs:
+                    return None
+                out.append(n)
+            return sorted(set(out))
     return None
 
 
